@@ -2,7 +2,9 @@ package dbm
 
 import (
 	"fmt"
+	"runtime"
 	"sort"
+	"time"
 
 	"github.com/cockroachdb/pebble/internal/base"
 )
@@ -67,6 +69,16 @@ func checkFiles(r *Runner, dead bool) error {
 	}
 	for n := range haveT {
 		if !wantT[n] {
+			if DebugLinger {
+				var buf [1 << 20]byte
+				n0 := runtime.Stack(buf[:], true)
+				fmt.Printf("GOROUTINES AT LINGER:\n%s\n", buf[:n0])
+				time.Sleep(10 * time.Second)
+				r.Wait()
+				names2, _ := r.FS.List(r.Dir)
+				sort.Strings(names2)
+				fmt.Printf("LINGER DEBUG: after sleeping 10s (virtual) the directory is %v\n", names2)
+			}
 			return fmt.Errorf("obsolete table file %s lingers: no reader is open, deletions are drained, and the current version does not reference it (dir %v)", n, names)
 		}
 	}
@@ -88,6 +100,10 @@ func checkFiles(r *Runner, dead bool) error {
 	r.C["files-dead-checks"]++
 	return nil
 }
+
+// DebugLinger dumps goroutines and re-lists the directory after a virtual sleep
+// when an obsolete file lingers (debugging aid).
+var DebugLinger bool
 
 func (r *Runner) noReaders() bool {
 	return len(r.iters) == 0 && len(r.snaps) == 0 && len(r.efos) == 0
